@@ -194,6 +194,36 @@ Definition spec_save_omit (t : table) (os : list col) (v : rec) (o : obs) : bool
   && (r_id (o_ret o) =? k) && same_on data_cols (o_ret o) v
   && (o_ra o =? 1).
 
+(* Create + OnConflict rule on a table with a second unique index (e-mails starting with "u"): the rule
+   only defines what happens on a collision with its conflict target, the key.  An incoming row (or an
+   updated colliding row) whose unique e-mail another row holds is an ERROR that leaves the table
+   untouched — not swallowed — unless the rule is DO NOTHING without any conflict target. *)
+Fixpoint writes_email (ru : rule) (old : rec) : bool :=
+  match ru with
+  | RNothing => false
+  | RUpdates cols => mem_col CEmail cols
+  | RAll => true
+  | RWhere k r => (r_age old <? k) && writes_email r old
+  | RTarget _ r => writes_email r old
+  end.
+Definition spec_upsert_u (t : table) (now : Z) (ru : rule) (tgt : bool) (v : rec) (o : obs) : bool :=
+  let k := if r_id v =? 0 then r_id (o_ret o) else r_id v in
+  let old := if r_id v =? 0 then None else lookup t (r_id v) in
+  let clash := uemail (r_email v)
+               && existsb (fun r => negb (r_id r =? r_id v) && String.eqb (r_email r) (r_email v)) t in
+  match old with
+  | None =>
+      if clash
+      then if untargeted_nothing ru tgt
+           then negb (o_err o) && tbl_eqb (o_tbl o) t && (o_ra o =? 0)
+           else o_err o && tbl_eqb (o_tbl o) t
+      else spec_upsert t now ru v o
+  | Some r =>
+      if clash && writes_email ru r
+      then o_err o && tbl_eqb (o_tbl o) t
+      else spec_upsert t now ru v o
+  end.
+
 Definition spec_step (t : table) (now : Z) (ch : list cel) (f : fin) (o : obs) : bool :=
   match f with
   | FSave v => spec_save t v o
@@ -202,6 +232,7 @@ Definition spec_step (t : table) (now : Z) (ch : list cel) (f : fin) (o : obs) :
   | FFoc ic => spec_foc t (ch_conds ch ++ ic) (ch_attrs ch) (ch_assigns ch) o
   | FSaveSlice _ => false       (* needs the slice handed back: see spec_case *)
   | FSaveOmit os v => spec_save_omit t os v o
+  | FCreateU ru tgt v => spec_upsert_u t now ru tgt v o
   end.
 
 (* [rets] = the caller's slice after the call (Save of a slice), [] otherwise *)
@@ -256,13 +287,14 @@ Definition in_domain (ch : list cel) (f : fin) : bool :=
       kv_alone (ch_attrs ch) && kv_alone (ch_assigns ch)
       && conds_typed (ch_conds ch ++ ic) && args_typed (ch_attrs ch) && args_typed (ch_assigns ch)
       && conds_dom (ch_conds ch ++ ic) && args_data (ch_attrs ch) && args_data (ch_assigns ch)
-  | FSaveSlice _ | FSaveOmit _ _ => false   (* not covered by model_meets_spec; own domains below *)
+  | FSaveSlice _ | FSaveOmit _ _ | FCreateU _ _ _ => false   (* not covered by model_meets_spec; own domains below *)
   end.
 (* Save of a slice: the non-zero keys are distinct *)
 Definition slice_dom (f : fin) : bool :=
   match f with
   | FSaveSlice vs => distinctb (filter (fun k => negb (k =? 0)) (map r_id vs))
   | FSaveOmit os _ => negb (existsb (col_eqb CId) os)      (* the key is never omitted *)
+  | FCreateU _ _ _ => true
   | _ => false
   end.
 
